@@ -32,7 +32,8 @@ def tree_snapshot(ws):
         for f in FLAGS:
             if hasattr(ent, f):
                 rec[f] = bool(getattr(ent, f))
-        for arr in ("vertices", "cells"):
+        for arr in ("vertices", "cells", "origin", "u_cell_size", "v_cell_size", "rotation", "u_cell_delimiters", "v_cell_delimiters",
+                    "z_cell_delimiters"):
             if hasattr(type(ent), arr):
                 try:
                     rec[arr] = _norm(getattr(ent, arr))
